@@ -100,6 +100,12 @@ fn main() {
                 let p_hb = [20u64, 40, 70][rng.below(3) as usize];
                 let p_req = [10u64, 30, 60][rng.below(3) as usize];
                 let crash_at = if rng.chance(3, 10) { Some((rng.below(n as u64) as usize, rng.below(max_steps as u64) as usize)) } else { None };
+                // every third case: biased toward RE-ELECTIONS of former leaders that still hold
+                // unreplicated entries, with client requests interleaved between the leader's
+                // AppendEntries and their acks (the figure-8 / Raft 5.4.2 situations)
+                let reelect = case % 3 == 0;
+                let mut ever_led = vec![false; n];
+                let (p_deliver, p_hb, p_req) = if reelect { (75, 22, 45) } else { (p_deliver, p_hb, p_req) };
                 let mut next_val = 1u32;
                 let mut leaders_terms = std::collections::BTreeSet::new();
                 let mut case_commits = 0usize;
@@ -124,10 +130,15 @@ fn main() {
                         .map(|(i, _)| i)
                         .filter(|_| rng.chance(p_deliver, 100))
                         .collect();
-                    let el = rng.chance(p_el, 100);
+                    let is_leader = c.states[m].role == RaftState::Leader;
+                    let el = if reelect {
+                        rng.chance(if ever_led[m] && !is_leader { 40 } else { 14 }, 100)
+                    } else {
+                        rng.chance(p_el, 100)
+                    };
                     let hb = rng.chance(p_hb, 100);
                     let mut reqs = Vec::new();
-                    while rng.chance(p_req, 100) && reqs.len() < 2 {
+                    while (!reelect || is_leader) && rng.chance(p_req, 100) && reqs.len() < 2 {
                         reqs.push(next_val);
                         next_val += 1;
                     }
@@ -140,6 +151,7 @@ fn main() {
                     if ok {
                         case_commits += c.states[m].emitted_index - before;
                         if c.states[m].role == RaftState::Leader {
+                            ever_led[m] = true;
                             leaders_terms.insert(c.states[m].term);
                         }
                         max_term = max_term.max(c.states[m].term);
